@@ -2,7 +2,8 @@
 //! `fenmut`   - for each base FEN: the base itself in its 4/5/6-field forms, every single-character
 //!              deletion, and every insertion / replacement at every index from an alphabet of
 //!              character classes (exhaustive), or random double edits; each string is imported
-//!              with Game::new under catch_unwind and the outcome recorded (C17).
+//!              with Game::new under catch_unwind and the outcome recorded (C17).  Mode `bases`:
+//!              only the base forms, no edits.
 //! `variants` - for each base FEN: every single-feature variation of the position (side, each
 //!              castling right, each en-passant file, each square's content), imported, with both
 //!              hashes recorded (C05).
@@ -62,6 +63,9 @@ fn run_fenmut(args: &Args) {
         if fields.len() >= 5 {
             import_event(&mut out, &fields[..5].join(" "), true);
             import_event(&mut out, &fields[..4].join(" "), true);
+        }
+        if mode == "bases" {
+            continue; // only the well-formed texts themselves (large lists of positions, no edits)
         }
         let cs: Vec<char> = base.chars().collect();
         if mode == "exhaustive" {
